@@ -123,6 +123,16 @@ def scratch_dir():
     return _scratch
 
 
+def drop_scratch():
+    """Removes this process's scratch directory (pool workers leave through os._exit, which runs no atexit handler)."""
+    global _scratch
+    if _scratch is not None and _scratch_pid == os.getpid():
+        shutil.rmtree(_scratch, ignore_errors=True)
+        _last_files.clear()
+        _last_isa_written.clear()
+    _scratch = None
+
+
 def _cleanup(path, pid):
     if os.getpid() == pid:
         shutil.rmtree(path, ignore_errors=True)
